@@ -28,7 +28,7 @@ func TestC05(t *testing.T) {
 	(&pbt.Check{
 		ID:   "C05",
 		Part: "bridge",
-		Rule: "whole-bridge histories incl. bursts of 30-120 sends in one block, 2^200-scale amounts, decimals 0..24, tiny commissions, many validators, time jumps; every Begin/EndBlocker runs under a watchdog on the cache-wrapped store; non-trivial = a block applied >=1 external event and the history held a burst (>64 pool writes in one block) or an executed batch; distinct = distinct case JSON",
+		Rule: "whole-bridge histories incl. bursts of 30-120 sends in one block, 2^200-scale amounts, decimals 0..24, tiny commissions, many validators, time jumps, a token delisted by governance while its transfers wait (terminal macro xdelist); every Begin/EndBlocker runs under a watchdog on the cache-wrapped store; non-trivial = a block applied >=1 external event and the history held a burst (>64 pool writes in one block) or an executed batch; distinct = distinct case JSON",
 		Gen:  bridge.GenCase(c05Opts),
 		New:  func() interface{} { return &bridge.Case{} },
 		Run: func(ci interface{}, rec *pbt.Rec) *pbt.Failure {
